@@ -254,6 +254,33 @@ Proof.
   rewrite (gateway_walk_best _ pre r post max_int32 [] Hd Hp Hpre Hpost). reflexivity.
 Qed.
 
+(* ------------------------------------------------------------------ the target argument *)
+
+(* A target that is not an IPv4 host address or an IPv4 CIDR block -- every IPv6 notation, the
+   IPv4-mapped forms included (ParseCIDR gives them a 16-byte mask, netip.Is4 is false), and text
+   that does not parse -- is refused with ip.ErrInvalidAddr and NOTHING else happens: no interface,
+   no source is selected, for every host configuration and every flag combination.  The arp command
+   parses the target first; the ip-level commands look --iface up first, so a wrong --iface is
+   reported instead.  ([non_ipv4_text] is exactly what ParseIPNet refuses: C17_target_refused_iff.) *)
+Theorem C17_non_ipv4_target_refused : forall cfg x ov,
+  non_ipv4_text x ->
+  run_arp cfg (Some x) ov = Err ErrTarget /\
+  run cfg (Some x) ov = match resolve_iface cfg ov with Err e => Err e | Ok _ => Err ErrTarget end.
+Proof. exact (refused_target true). Qed.
+
+Theorem C17_target_refused_iff : forall x, non_ipv4_text x <-> parse_ipnet x = Err ErrTarget.
+Proof. exact parse_ipnet_refuses. Qed.
+
+(* every other argument is accepted with a 4-byte mask and handed unchanged to the selection the
+   theorems above are about; without a positional argument the selection runs without target *)
+Theorem C17_target_accepted : forall cfg x t ov,
+  parse_ipnet x = Ok t ->
+  run cfg (Some x) ov = choose cfg (Some t) ov /\ run_arp cfg (Some x) ov = choose_arp cfg (Some t) ov.
+Proof. exact (accepted_target true). Qed.
+
+Theorem C17_target_total : forall x, non_ipv4_text x \/ exists t, parse_ipnet x = Ok t /\ len (t_mask t) = 4.
+Proof. exact parse_ipnet_total. Qed.
+
 (* ------------------------------------------------------------------ non-vacuity *)
 
 Definition v4 (a b c d : Z) : ip := [0; 0; 0; 0; 0; 0; 0; 0; 0; 0; 255; 255; a; b; c; d].
@@ -356,6 +383,23 @@ Example C17_ex_covers_arith :
   be [10; 1; 0; 1] / 2 ^ (32 - 16) = be [10; 1; 2; 0] / 2 ^ (32 - 16).
 Proof. split; vm_compute; reflexivity. Qed.
 
+(* fe80::/64 (ParseCIDR: 16-byte mask), ::ffff:10.9.9.0/120 (IPv4-mapped: 16-byte mask), 2001:db8::5 and
+   ::ffff:10.1.2.3 (not Is4): refused before [host] is looked at; 10.1.2.0/24 and 10.1.2.77 accepted *)
+Example C17_ex_v6_targets_refused :
+  run_arp host (Some (TxtCIDR ([254; 128] ++ repeat 0 14) (repeat 255 8 ++ repeat 0 8))) no_ov = Err ErrTarget /\
+  run host (Some (TxtCIDR (repeat 0 10 ++ [255; 255; 10; 9; 9; 0]) (repeat 255 15 ++ [0]))) no_ov = Err ErrTarget /\
+  run host (Some (TxtAddr false ([32; 1; 13; 184] ++ repeat 0 11 ++ [5]))) no_ov = Err ErrTarget /\
+  run host (Some (TxtAddr false (repeat 0 10 ++ [255; 255; 10; 1; 2; 3]))) no_ov = Err ErrTarget /\
+  run host (Some TxtJunk) no_ov = Err ErrTarget /\
+  run host (Some (TxtAddr false [])) {| ov_iface := "nosuch0"; ov_srcip := None; ov_srcmac := None |} = Err ErrIfaceName.
+Proof. repeat split; vm_compute; reflexivity. Qed.
+
+Example C17_ex_v4_targets_accepted :
+  run host (Some (TxtCIDR [10; 1; 2; 0] [255; 255; 255; 0])) no_ov = choose host (tnet 10 1 2 0 [255; 255; 255; 0]) no_ov /\
+  run host (Some (TxtAddr true [10; 1; 2; 77])) no_ov =
+  Ok {| o_iface := eth0; o_srcip := Some [10; 1; 2; 3]; o_srcmac := Some [2; 0; 0; 0; 0; 2]; o_vpn := false |}.
+Proof. split; vm_compute; reflexivity. Qed.
+
 Print Assumptions C17_attached.
 Print Assumptions C17_attached_plain.
 Print Assumptions C17_attached_iface.
@@ -375,3 +419,7 @@ Print Assumptions C17_fallback_first_default.
 Print Assumptions C17_covers_v4.
 Print Assumptions C17_covers_v4_subnet.
 Print Assumptions C17_gateway_of_best_route.
+Print Assumptions C17_non_ipv4_target_refused.
+Print Assumptions C17_target_refused_iff.
+Print Assumptions C17_target_accepted.
+Print Assumptions C17_target_total.
